@@ -62,6 +62,9 @@ func init() {
 				jobs = append(jobs, job{s, h})
 			}
 		}
+		if r.ShardChild() {
+			jobs = nil // the single-input part is done once, by the parent process
+		}
 		enum.Parallel(len(jobs), func(i int) {
 			j := jobs[i]
 			evs := j.evs
